@@ -46,6 +46,8 @@ pub fn format(
         }
     }
 
+    // Ranges of nested blocks are collected block by block: put them in document order.
+    open_structure_remove_range.sort_by_key(|r| r.start);
     merge_ranges(&mut ranges, open_structure_remove_range);
     merge_overlapped_ranges(&mut ranges);
 
